@@ -127,7 +127,7 @@ fn read(text: &str) -> Result<Vec<Tx>, String> {
     csvtxs.into_iter().map(Tx::try_from).collect()
 }
 
-fn tx_diff(a: &Tx, b: &Tx, only_default_affiliates: bool) -> Option<String> {
+pub fn tx_diff(a: &Tx, b: &Tx, only_default_affiliates: bool) -> Option<String> {
     if a.security != b.security { return Some(format!("security {:?} vs {:?}", a.security, b.security)); }
     if a.trade_date != b.trade_date || a.settlement_date != b.settlement_date { return Some("dates differ".into()); }
     if a.action_specifics != b.action_specifics { return Some(format!("action specifics differ:\n   written {:?}\n   re-read {:?}", a.action_specifics, b.action_specifics)); }
